@@ -87,15 +87,17 @@ func newChunkExporter(exporter Exporter, size int) Exporter {
 	return &chunkExporter{Exporter: exporter, size: size}
 }
 
-// Export exports records in chunks no larger than c.size.
+// Export exports records in chunks no larger than c.size. A chunk that fails
+// does not keep the remaining chunks from being passed to the exporter (an
+// asynchronous caller never sees the error, so the rest would be lost
+// silently); the errors of all failed chunks are joined.
 func (c chunkExporter) Export(ctx context.Context, records []Record) error {
 	n := len(records)
+	var err error
 	for i, j := 0, min(c.size, n); i < n; i, j = i+c.size, min(j+c.size, n) {
-		if err := c.Exporter.Export(ctx, records[i:j]); err != nil {
-			return err
-		}
+		err = errors.Join(err, c.Exporter.Export(ctx, records[i:j]))
 	}
-	return nil
+	return err
 }
 
 // timeoutExporter wraps an Exporter and ensures any call to Export will have a
